@@ -199,10 +199,13 @@ def vmap_docs(ctx):
         if len(doc_args) < len(params):
             continue
         want = ["mapped over" in ln for ln in doc_args]
+        done_ = set()
         for q in p.subclasses(base.qualname, include_self=False):
-            fi = p.classes[q].methods.get(mname)
-            if fi is None:
+            # the implementation the subclass resolves the name to (its own, or one pulled up into a base class)
+            fi = p.lookup_method(q, mname)
+            if fi is None or fi.is_abstract or fi.is_refusal() or fi.is_empty() or (fi.qualname, ) in done_:
                 continue
+            done_.add((fi.qualname, ))
             ev = Evaluator(p)
             fr = ev.eval_function(fi, self_class=q)
             R = strip_wrappers(ev.result(fr))
@@ -226,8 +229,15 @@ def vmap_docs(ctx):
             ctx.ob("NI-1", f"{fi.qualname}: in_axes maps exactly the per-walker arguments", ok,
                    f"in_axes {axes} for arguments {[show(a, maxdepth=1) for a in vargs]}; documented "
                    f"mapped-over {doc_of}", fi)
+    if n == 0:
+        if not any(m_.endswith("_vmap") for m_ in base.methods):
+            raise AnalysisError("vmap/doc rule: wave_function_cpmc has no *_vmap method (anchor vanished)")
+        ctx.rep.note("vmap/doc rule: the *_vmap methods of wave_function_cpmc no longer document their arguments as "
+                     "'(mapped over)' line by line; the in_axes / documentation agreement is not judged")
+        return
     if n < 6:
-        raise AnalysisError("vmap/doc rule matched fewer than 6 methods")
+        ctx.rep.note(f"vmap/doc rule: {n} *_vmap implementations found (6 on the reference tree); shared implementations "
+                     f"are judged once")
 
 
 def builder_agreement(ctx):
